@@ -101,10 +101,6 @@ def outcome(fn):
         return ("exc", e)
 
 
-def hexi(v):
-    return None if v is None else hex(int(v))
-
-
 def hexpt(P):
     if P is None:
         return "neutral"
@@ -137,6 +133,20 @@ def special_scalars(n, full=True):
     return out
 
 
+def rep_digit_scalars(n, widths):
+    """scalars whose every w-bit window holds the same digit d (all d, several w): one multiplication exercises
+    the entry 'digit d' of every window of a fixed- or sliding-window implementation at once."""
+    nb = n.bit_length()
+    out = []
+    for w in widths:
+        for d in range(1, 1 << w):
+            k = 0
+            for i in range(0, nb - w, w):
+                k |= d << i
+            out.append((k, "rep-digit:w%d" % w))
+    return out
+
+
 def _bucket(L, nlen):
     if L <= 1:
         return "1"
@@ -163,8 +173,10 @@ def rand_scalar(rng, n, specials):
                         rng.randint(1, 80), rng.randint(1, 80), rng.randint(1, 80)])
         k = rng.getrandbits(8 * L) | (1 << (8 * L - rng.randint(1, 8)))
         return k, "bytes:" + _bucket(L, nlen)
-    if r < 0.87:
+    if r < 0.85:
         return rng.getrandbits(1000) | (1 << 999), "bits1000"
+    if r < 0.88:
+        return rng.randrange(1, 64) << rng.randrange(n.bit_length() - 6), "sparse:d<<o"
     if r < 0.94:
         return max(0, n + rng.randint(-300, 300)), "near-n"
     return rng.randrange(n, 1 << n.bit_length()), "n<=k<2^nbits"
@@ -817,6 +829,15 @@ class PointFamily(object):
                     self.op_mul(e, k, label, "rmul", as_integer=(i % 2 == 0))
         for k, label in self.specials:
             self.op_genpath_pair(k, label)
+        # every digit of every window: fixed-base tables (generator path) and the 4-bit window of the generic path
+        # (seed class 'zero' = unblinded, so the digits of k are the digits used)
+        g_ctor = [e for e in ents if (e.cls, e.route) == ("G", "ctor")][0]
+        p_ctor = [e for e in ents if (e.cls, e.route) == ("kG", "ctor")][0]
+        for k, label in rep_digit_scalars(c.n, (3, 4, 5, 6) if self.ctx.tier == "quick" else (1, 2, 3, 4, 5, 6, 7, 8)):
+            self.op_mul(g_ctor, k, label, "mul")
+            if label in ("rep-digit:w4", "rep-digit:w2", "rep-digit:w1"):
+                self.op_mul(p_ctor, k, label, "imul", seedcls="zero")
+                self.op_mul(p_ctor, k, label, "mul", seedcls="R0")
         # blinding-seed classes on both paths
         for sc in ("zero", "R0", "Rmax"):
             for e in mul_ents[:5]:
@@ -1250,11 +1271,6 @@ class XFamily(object):
 
 # ---------------------------------------------------------------------------
 # ECDH (SP 800-56A C(2e,2s) C(2e,0s) C(1e,2s) C(1e,1s) C(0e,2s); RFC 7748)
-
-class Party(object):
-    """key material of one party: static + ephemeral private keys and the model's public values."""
-    pass
-
 
 def ecdh(spec, ctx, ec):
     from Crypto.PublicKey import ECC
